@@ -56,6 +56,8 @@ type Engine struct {
 	strOps    map[string]bool
 	loopStates map[*loopInfo]*liState
 	oblCount map[string]int
+	parseCalls []string
+	guard string // reach condition of the block being executed (guards stores)
 	memo map[string]execResult
 	dirty map[string]bool
 	loopModKeys map[*loopInfo]map[string]bool
@@ -63,7 +65,7 @@ type Engine struct {
 
 func newEngine(w *World) *Engine {
 	e := &Engine{w: w, sc: newScript(), comps: map[string]*component{}, lits: map[string]string{}, litFacts: map[string]bool{},
-		tags: map[string]int{}, funcIDs: map[*ssa.Function]int{}, abstracted: map[string]int{}, assumedExt: map[string]int{},
+		guard: "true", tags: map[string]int{}, funcIDs: map[*ssa.Function]int{}, abstracted: map[string]int{}, assumedExt: map[string]int{},
 		inlined: map[string]int{}, usedContracts: map[string]int{}, uf: map[string]bool{}, strOps: map[string]bool{}, loopStates: map[*loopInfo]*liState{}, oblCount: map[string]int{}, memo: map[string]execResult{}, dirty: map[string]bool{}}
 	e.sc.add("(declare-sort F64 0)")
 	e.sc.add("(declare-const f64_zero F64)")
@@ -72,7 +74,6 @@ func newEngine(w *World) *Engine {
 	e.sc.add("(assert (= (gs_len str_empty) (_ bv0 64)))")
 	e.sc.add("(declare-fun gs_id (Str) (_ BitVec 32))")
 	e.sc.add("(assert (= (gs_id str_empty) (_ bv1 32)))")
-	e.sc.add("(assert (forall ((s Str)) (bvsge (gs_len s) (_ bv0 64))))")
 	e.sc.declared["gs_len"] = ""
 	e.lits[""] = "str_empty"
 	e.litOrder = append(e.litOrder, "")
@@ -223,15 +224,20 @@ func (e *Engine) execFunction(fn *ssa.Function, args []Val, bind []Val, reach st
 		}
 	}
 	order := e.analyzeCFG(fr)
+	// The heap is one linear history for the whole (acyclic) execution: blocks are
+	// executed in topological order and every store to a pre-existing object is
+	// guarded by the reach condition of its block, so stores of blocks that are not
+	// on the executed path are no-ops. No heap merging at joins is needed, and the
+	// final heap is valid for every return site.
+	saveGuard := e.guard
 	for _, b := range order {
 		e.execBlock(fr, b, reach, heap)
 	}
-	// merge return sites
+	e.guard = saveGuard
 	if len(fr.rets) == 0 {
 		return execResult{ret: nil, reach: "false", heap: heap}
 	}
 	res := fr.rets[len(fr.rets)-1]
-	outHeap := res.heap
 	outVal := res.val
 	var conds []string
 	conds = append(conds, res.cond)
@@ -241,10 +247,9 @@ func (e *Engine) execFunction(fn *ssa.Function, args []Val, bind []Val, reach st
 		if outVal != nil {
 			outVal = e.iteVal(r.cond, r.val, outVal)
 		}
-		outHeap = e.mergeHeap2(r.cond, r.heap, outHeap)
 	}
 	rc := e.sc.define("ret_"+fn.Name(), SBool, or(conds...))
-	return execResult{ret: outVal, reach: rc, heap: outHeap}
+	return execResult{ret: outVal, reach: rc, heap: heap}
 }
 
 func (e *Engine) mergeHeap2(c string, a, b Heap) Heap {
@@ -467,25 +472,18 @@ func (e *Engine) incoming(fr *frame, b *ssa.BasicBlock) (conds []string, idxs []
 func (e *Engine) execBlock(fr *frame, b *ssa.BasicBlock, entryReach string, entryHeap Heap) {
 	st := &blockState{}
 	fr.bs[b] = st
-	var heap Heap
+	heap := entryHeap // shared linear heap
 	var conds []string
 	var idxs []int
 	if b.Index == 0 {
 		st.reachIn = entryReach
-		heap = entryHeap.clone()
 	} else {
 		conds, idxs = e.incoming(fr, b)
 		if len(conds) == 0 {
 			// unreachable in the acyclic remainder (e.g. only reached via back edge)
 			st.reachIn = "false"
-			heap = Heap{}
 		} else {
 			st.reachIn = e.sc.define(fmt.Sprintf("r_%s_b%d", fr.fn.Name(), b.Index), SBool, or(conds...))
-			// heap merge
-			heap = fr.bs[b.Preds[idxs[len(idxs)-1]]].heap.clone()
-			for i := len(idxs) - 2; i >= 0; i-- {
-				heap = e.mergeHeap2(conds[i], fr.bs[b.Preds[idxs[i]]].heap, heap)
-			}
 		}
 	}
 	reach := st.reachIn
@@ -501,13 +499,14 @@ func (e *Engine) execBlock(fr *frame, b *ssa.BasicBlock, entryReach string, entr
 			fr.vals[phi] = e.phiValue(fr, phi, conds, idxs)
 			continue
 		}
+		e.guard = reach
 		reach = e.execInstr(fr, b, ins, reach, heap, st)
 		if st.done {
 			break
 		}
 	}
 	st.reachOut = reach
-	st.heap = heap
+	st.heap = heap.clone() // snapshot (for loop back edges)
 	st.done = true
 	// back edges leaving this block: check invariants
 	for si, s := range b.Succs {
@@ -589,4 +588,28 @@ func (e *Engine) constVal(c *ssa.Const) Val {
 	}
 	fail("constant of type %s", t)
 	return nil
+}
+
+// zeroArr is an array (index BV64) whose first n elements (all elements if n < 0)
+// are the zero value z of leaf sort el. cvc5 accepts (as const ..) only on values, so
+// arrays of the uninterpreted sorts are built from stores (small n) or a lazily
+// declared constant with a quantified axiom.
+func (e *Engine) zeroArr(el, z string, n int) string {
+	if el != SStr && el != "F64" {
+		return "((as const " + arrSort(SI64, el) + ") " + z + ")"
+	}
+	if n >= 0 && n <= 16 {
+		a := e.sc.declare("zbase", arrSort(SI64, el))
+		for i := 0; i < n; i++ {
+			a = sto(a, bvLit(uint64(i), 64), z)
+		}
+		return a
+	}
+	name := "zarr_" + el
+	if _, ok := e.sc.declared[name]; !ok {
+		e.sc.declared[name] = arrSort(SI64, el)
+		e.sc.add(fmt.Sprintf("(declare-const %s %s)", name, arrSort(SI64, el)))
+		e.sc.add(fmt.Sprintf("(assert (forall ((i (_ BitVec 64))) (= (select %s i) %s)))", name, z))
+	}
+	return name
 }
